@@ -100,6 +100,8 @@ M("C11", GEN, "write_robot_C", '.replace("], ", "],\\n")', '.replace("], ", "]\\
 M("C11", GEN, "write_robot_B", "[0] * n_tiles * (total-1)", "[0] * n_tiles * total", "C11.3", "rewards list too long")
 M("C11", GEN, "prob_light_break_transitions", "transition.append((1 - prob_light_break, offset_ok + i * width + j))", "transition.append((prob_light_break, offset_ok + i * width + j))", "C11.3", "probabilities do not sum to 1")
 M("C11", CR, "read_dict_from_file", "dictionary = eval(contents)", "dictionary = eval(contents.lower())", "C11.4", "reader lowers the text")
+M("C11", GEN, "write_robot_C", '["Player 1" for i in range(n_tiles*n_robot_groups)]', '["Player1" for i in range(n_tiles*n_robot_groups)]', "C11.6", "owner name the solver does not know")
+M("C11", GEN, "write_robot_A", '"final_states": my_final_states', '"final": my_final_states', "C11.6", "game key renamed")
 # ---- C12 -------------------------------------------------------------------------------------------------------------
 M("C12", CR, "run_games", "for prune_states in [True, False]:", "for prune_states in [False, True]:", "C12.1", "modes reversed: both entries under one key")
 M("C12", CR, "run_games", 'name = name if prune_states else name + "_no_prune"', "name = name", "C12.1", "suffix dropped")
